@@ -15,6 +15,10 @@ def make_case(seed, shard_index, i, kind, opts=None):
     opts = opts or {}
     rng = rng_for(seed, "remap", kind, shard_index, i)
     t = opts.get("t") or gasm.pick_texel(rng, small=opts.get("small_t", False))
+    hmode = rng.choice(gpv.HOSTILE_MODES) if kind == "hostile" else None
+    if hmode == "holes":
+        # holes matter where short contigs straddle the piece boundary
+        opts = {**opts, "small_contigs": True, "max_texels": rng.choice([3, 6, 60])}
     inp, l_in = gasm.gen_input(
         rng,
         t,
@@ -24,6 +28,7 @@ def make_case(seed, shard_index, i, kind, opts=None):
         max_contigs=opts.get("max_contigs", 8),
         max_texels=opts.get("max_texels", 60),
         terminal_gaps=opts.get("terminal_gaps", False),
+        small_contigs=opts.get("small_contigs", False) or (kind == "hostile" and rng.random() < 0.5),
     )
     case = {"kind": "remap", "gen": kind, "t": t, "input": inp, "prefix": "SUPER_", "id": [seed, shard_index, i]}
     if kind == "pv":
@@ -32,7 +37,7 @@ def make_case(seed, shard_index, i, kind, opts=None):
         case["pieces"] = pieces
         labels = l_in | l_pv
     elif kind == "hostile":
-        pt, l_h = gpv.gen_hostile(rng, t, inp)
+        pt, l_h = gpv.gen_hostile(rng, t, inp, hmode)
         case["pretext"] = pt
         labels = l_in | l_h
     elif kind in ("tag", "vanish"):
